@@ -127,13 +127,26 @@ def resolveSources (ctx : List String) (src : Sel) (strict : Bool) : List String
 section Ops
 variable {S V : Type}
 
-/-- `rename`: `for s, t in pairs: self[t] = self.pop(s)`, strictly in sequence; a missing source is a `KeyError` -/
-def renamePairs (db : Box S V) : List (String × String) → R (Box S V)
-  | [] => pure db
-  | (s, t) :: rest =>
+/-- `values = [self.pop(s) for s, _ in pairs]`: the sources are popped one after the other; a missing (or repeated) source is a
+`KeyError` -/
+def popAll (db : Box S V) : List String → R (Box S V × List (Item S V))
+  | [] => pure (db, [])
+  | s :: rest =>
     match lookup db s with
     | none => throw .badInput
-    | some v => renamePairs (setKey (delKey db s) t v) rest
+    | some v => do
+      let (db', vs) ← popAll (delKey db s) rest
+      pure (db', v :: vs)
+
+/-- `for (_, t), v in zip(pairs, values): self[t] = v` -/
+def assignAll (db : Box S V) (l : List (String × Item S V)) : Box S V :=
+  l.foldl (fun acc p => setKey acc p.1 p.2) db
+
+/-- `rename` on the zipped (source, target) pairs, simultaneously: all sources are popped first, then the targets are assigned
+in pair order (a target that is also a source gets the value its partner had) -/
+def renamePairs (db : Box S V) (pairs : List (String × String)) : R (Box S V) := do
+  let (db', vs) ← popAll db (pairs.map (·.1))
+  pure (assignAll db' ((pairs.map (·.2)).zip vs))
 
 def rename (db : Box S V) (src : Sel) (tgt : Tgt) (strict : Bool) : R (Box S V) :=
   renamePairs db (resolvePairs (keys db) src tgt strict)
@@ -289,6 +302,29 @@ def merge (o : SOps S) (st : Strategy) (db : Box S V) : List (Box S V) → R (Bo
     let (db1, dup) ← mergeOne o st db t
     let r ← merge o st db1 rest
     if st = .raise && dup then throw .badInput else pure r
+
+/-! ### Spellings of one call: option resolution -/
+
+/-- `Databox.merge(other, merge_strategy="stack", action=None)`: the deprecated keyword `action`, whenever it is given, IS the
+strategy; otherwise the explicit `merge_strategy` (positional or keyword), otherwise the default `"stack"` -/
+def resolveStrategy (explicit legacy : Option Strategy) : Strategy :=
+  match legacy with
+  | some a => a
+  | none => explicit.getD .stack
+
+/-- `_imports._resolve_legacy_option(option, legacy)`: the new option when it is given (not `None`), the legacy one otherwise -/
+def resolveLegacy {α : Type} (option legacy : Option α) : Option α :=
+  match option with
+  | some x => some x
+  | none => legacy
+
+/-- `db.merge(others, <explicit>, action=<legacy>)` through any spelling -/
+def mergeCall (o : SOps S) (explicit legacy : Option Strategy) (db : Box S V) (others : List (Box S V)) : R (Box S V) :=
+  merge o (resolveStrategy explicit legacy) db others
+
+/-- `Databox.by_merging(databoxes, merge_strategy)`: an empty databox, then `merge` -/
+def byMerging (o : SOps S) (st : Option Strategy) (boxes : List (Box S V)) : R (Box S V) :=
+  mergeCall o st none [] boxes
 
 /-- the operations as data, for sequences -/
 inductive Op (S V : Type) where
